@@ -86,6 +86,31 @@ def handle : Handler := fun op args impl =>
         else verdictOf (impl == "ok " ++ stringOfBytes (specTranslate (Spec.ncbi code.toNat) (s.drop ph))) "translate-spec"
       else "na"
     some ⟨m, verdict⟩
+  | "altranslate", [alpha, ph, code, rows] => do
+    -- Alignment.Translate on the container: rows, names (`_<frame>` suffix for the three frames) and the cached
+    -- Length().  The alphabet re-detected on the protein rows is not judged (copied from the implementation).
+    let alpha ← alpha.toNat?
+    let ph ← parseInt? ph
+    let code ← parseInt? code
+    let rows ← decRows rows
+    if ph < -1 then some ⟨"unmodelled", "na"⟩ else
+    let frames : List Nat := if ph == -1 then [0, 1, 2] else [ph.toNat]
+    let validCode := code == 0 || code == 1 || code == 2
+    let short := rows.any fun r => frames.any fun f => r.2.length < 3 + f
+    let nm (r : String) (f : Nat) := if ph == -1 then r ++ "_" ++ toString f else r
+    let implAlpha := (impl.splitOn " ").getD 2 "0"
+    let render (out : List (String × Seq)) : String :=
+      let len : Int := match out with | [] => -1 | x :: _ => x.2.length
+      "ok " ++ toString len ++ " " ++ implAlpha ++ " " ++ encRows out
+    let model := rows.flatMap fun r => frames.filterMap fun f => (translateSeq f code r.2).map fun p => (nm r.1 f, p)
+    let spec := rows.flatMap fun r => frames.map fun f => (nm r.1 f, specTranslate (Spec.ncbi code.toNat) (r.2.drop f))
+    let names := spec.map Prod.fst
+    if names.eraseDups.length != names.length then some ⟨"unmodelled", "na"⟩ else
+    if alpha != 1 || !validCode || short then
+      some ⟨"err", if rows.all (fun r => (detectAlphabetSeq r.2 == NUCLEOTIDS || detectAlphabetSeq r.2 == BOTH)) then verdictOf (impl.startsWith "err") "altranslate-must-fail" else "na"⟩
+    else
+      let ok := rows.all fun r => (detectAlphabetSeq r.2 == NUCLEOTIDS || detectAlphabetSeq r.2 == BOTH)
+      some ⟨render model, if ok then verdictOf (impl == render spec) "altranslate-rows-or-length" else "na"⟩
   | _, _ => none
 
 end Gv.Oracle.SeqOps
